@@ -20,6 +20,8 @@ type chunkReader struct {
 	ci     int
 	fault  int
 	reads  int
+	// eofWithData: the Read that hands out the last byte also returns io.EOF (allowed by the io.Reader contract)
+	eofWithData bool
 }
 
 func (c *chunkReader) Read(p []byte) (int, error) {
@@ -49,6 +51,9 @@ func (c *chunkReader) Read(p []byte) (int, error) {
 	}
 	copy(p, c.data[c.pos:c.pos+n])
 	c.pos += n
+	if c.eofWithData && c.pos >= len(c.data) && (c.fault < 0 || c.fault > len(c.data)) {
+		return n, io.EOF
+	}
 	return n, nil
 }
 
@@ -136,10 +141,10 @@ type demuxRun struct {
 
 func runScenario(s scenario) *demuxRun {
 	out := &demuxRun{}
-	cr := &chunkReader{data: s.data, chunks: s.chunks, fault: s.fault}
+	cr := &chunkReader{data: s.data, chunks: s.chunks, fault: s.fault, eofWithData: s.kind >= 10}
 	var rd io.Reader
 	var br *bufio.Reader
-	switch s.kind {
+	switch s.kind % 10 {
 	case 1:
 		rd = seekReader{cr}
 	case 2:
